@@ -27,7 +27,10 @@ RULE = ("per codec configuration and base buffer: (0 deviations) the valid "
         "reversed channel order, unsorted tables) must decode correctly; (1 "
         "deviation) every truncation length, every byte position x byte "
         "alphabet (14 values quick / all 256 thorough), every header word "
-        "x {0,1,n-1,n,n+1,2^24-1,2^31,2^32-1} and every bits value; (2 "
+        "x {0,1,n-1,n,n+1,2^24-1,2^31,2^32-1} and every bits value, constant "
+        "fills (0x00, 0x01, 0xff) of every length up to the valid one + 8, "
+        "JPEG frame-header height x width from {0,1,2,255,256,13378,20000,"
+        "65535} and component counts; (2 "
         "deviations, thorough) all pairs of header-word edits and of "
         "header-byte edits over {0,1,0x7f,0x80,0xff}; plus all byte strings "
         "of length <= 2 (full alphabet) and <= 6 (quick) / 8 (thorough) over "
@@ -64,7 +67,8 @@ def cseg_configs(tier):
     if tier == "quick":
         return [("uint32", 1, (1, 2, 3), (2, 2, 2)),
                 ("uint64", 2, (1, 2, 3), (8, 8, 8)),
-                ("uint32", 2, (2, 1, 2), (2, 1, 4)),
+                ("uint32", 2, (1, 2, 3), (2, 1, 4)),
+                ("uint32", 1, (4, 1, 1), (1, 1, 2)),
                 ("uint64", 1, (2, 3, 3), (2, 2, 2)),
                 ("uint32", 3, (1, 1, 2), (1, 1, 1)),
                 ("uint64", 1, (1, 1, 1), (8, 8, 8))]
@@ -312,6 +316,31 @@ def edits_for(case, buf, tier):
                   buf[pos] ^ 0x80):
             if v not in alpha:
                 yield {"kind": "bytes", "edits": [[pos, v]]}
+    # constant fills of every length around the valid one (a buffer of
+    # zeros is a plausible "sparse file" corruption)
+    for fill in (0, 0xff, 1):
+        for n in range(0, len(buf) + 9):
+            yield {"kind": "string", "hex": bytes([fill] * n).hex()}
+    if codec == "jpeg":
+        # targeted edits of the frame header (SOF0/SOF2): height and width
+        i = 2
+        sof = None
+        while i + 4 <= len(buf) and buf[i] == 0xFF:
+            marker = buf[i + 1]
+            seglen = (buf[i + 2] << 8) | buf[i + 3]
+            if marker in (0xC0, 0xC1, 0xC2):
+                sof = i
+                break
+            i += 2 + seglen
+        if sof is not None:
+            vals = [0, 1, 2, 255, 256, 13378, 20000, 65535]
+            for h in vals:
+                for w in vals:
+                    yield {"kind": "bytes", "edits": [
+                        [sof + 5, h >> 8], [sof + 6, h & 255],
+                        [sof + 7, w >> 8], [sof + 8, w & 255]]}
+            for ncomp in (0, 1, 2, 3, 4, 255):
+                yield {"kind": "bytes", "edits": [[sof + 9, ncomp]]}
     if codec == "cseg":
         hw = header_words(case, buf)
         for w in hw:
@@ -437,7 +466,7 @@ def replay(case):
     signal.signal(signal.SIGPROF, _on_timer)
     col = Collector()
     enc = make_encoder(case)
-    if case["edit"]["kind"] == "string":
+    if case["edit"]["kind"] == "string" and "base" not in case:
         judge(col, case, enc, bytes.fromhex(case["edit"]["hex"]), None, None)
     else:
         buf, exp = build_base(case)
